@@ -30,6 +30,14 @@ fn oracle(events: &[Event], env: &HashMap<&str, std::ffi::OsString>) -> String {
         let paths: Vec<PathBuf> = ev.tags.iter().filter_map(|t| if let Tag::Path { path, .. } = t { Some(path.clone()) } else { None }).collect();
         for t in &ev.tags { if let Tag::FileEventKind(k) = t { for p in &paths { wanted.entry(doc_bucket(k)).or_default().push(p.clone()); } } }
     }
+    // "the common path is the longest common directory": the directory of a path is the path itself when it is typed as a directory, else its
+    // parent; COMMON is above (or equal to) every one of them, and no longer ancestor of the first is above all of them
+    let dirs: Vec<PathBuf> = events.iter().flat_map(|ev| ev.tags.iter().filter_map(|t| if let Tag::Path { path, file_type } = t {
+        Some(match file_type { Some(FileType::Dir) => path.clone(), _ => path.parent().map(|p| p.to_path_buf()).unwrap_or_else(|| path.clone()) }) } else { None })).collect();
+    if let Some(first) = dirs.first() {
+        let longest = first.ancestors().find(|a| !a.as_os_str().is_empty() && dirs.iter().all(|d| d.starts_with(a))).map(|a| a.to_path_buf());
+        if longest != common { return format!("COMMON is {:?} but the longest common directory of the batch is {:?}", common, longest); }
+    }
     for (var, val) in env.iter().filter(|(k, _)| **k != "COMMON") {
         let entries: Vec<&[u8]> = val.as_bytes().split(|b| *b == b':').collect();
         for w in entries.windows(2) { if w[0] >= w[1] { return format!("{var}: entries not strictly increasing in byte order"); } }
@@ -59,6 +67,7 @@ fn main() {
     for _ in 0..n {
         let ne = r.below(5);
         let base: Vec<&str> = (0..r.below(3)).map(|_| names[r.below(names.len() as u64) as usize]).collect();
+        let tail: Vec<&str> = if r.below(3) == 0 { (0..1 + r.below(2)).map(|_| names[r.below(names.len() as u64) as usize]).collect() } else { vec![] };
         let mut events = vec![]; let mut enc = vec![];
         for _ in 0..ne {
             let np = if r.below(6) == 0 { 0 } else { r.below(3) + 1 };
@@ -67,7 +76,10 @@ fn main() {
             for _ in 0..np {
                 let mut p = if r.below(8) == 0 { PathBuf::new() } else { PathBuf::from("/") };
                 if r.below(5) != 0 { for b in &base { p.push(b); } }
-                for _ in 0..r.below(3) { p.push(names[r.below(names.len() as u64) as usize]); }
+                // a third of the cases: paths that diverge at one component and then continue with the SAME components (crates/lib/src vs
+                // crates/cli/src) — equal components after the first difference are not common
+                if !tail.is_empty() && r.below(2) == 0 { p.push(names[r.below(names.len() as u64) as usize]); for t in &tail { p.push(t); } if r.below(2) == 0 { p.push(names[r.below(names.len() as u64) as usize]); } }
+                else { for _ in 0..r.below(3) { p.push(names[r.below(names.len() as u64) as usize]); } }
                 if p.as_os_str().is_empty() { p.push("rel"); }
                 let (ft, fts) = match r.below(4) { 0 => (Some(FileType::Dir), "d"), 1 => (Some(FileType::File), "f"), 2 => (None, "-"), _ => (Some(FileType::Symlink), "s") };
                 ps.push(format!("{}^{}", p.display(), fts));
